@@ -62,7 +62,7 @@ def main():
     print(f"{len(checks)} checks, {len(na)} not_applicable")
 
 
-HOOK_COMMITS = ["de5dfe6"]
+HOOK_COMMITS = ["de5dfe6", "4ad1044"]
 # properties whose check has been reviewed and runs clean on the unchanged tree
 READY = ["C01", "C02", "C03", "C04", "C05", "C06", "C07", "C08", "C09", "C10", "C11", "C12", "C13", "C14", "C15", "C16", "C17", "C18", "C19", "C20"]
 
